@@ -334,16 +334,21 @@ class MinimizerIMinuit(MinimizerBase):
             raise RuntimeError("Need to perform a fit before calling profile()!")
         _ = self.parameter_values, self.parameter_errors  # initialize so that they are part of the saved state
         self._save_state()
-        _bound_low, _bound_high, _arrow_specs = self._get_profile_bound(parameter_name, low, high, sigma, cl, subtract_min, arrows)
-        self.minimize()  # return to minimum
-        _kwargs = dict(bound=(_bound_low, _bound_high), subtract_min=subtract_min)
-        if _IMINUIT_1:
-            _kwargs["bins"] = size
-        else:
-            _kwargs["size"] = size
-        _bins, _vals, _statuses = self.__iminuit.mnprofile(parameter_name, **_kwargs)
-        # TODO: check statuses (?)
-        self.minimize()  # return to minimum
+        try:
+            _bound_low, _bound_high, _arrow_specs = self._get_profile_bound(parameter_name, low, high, sigma, cl, subtract_min, arrows)
+            self.minimize()  # return to minimum
+            _kwargs = dict(bound=(_bound_low, _bound_high), subtract_min=subtract_min)
+            if _IMINUIT_1:
+                _kwargs["bins"] = size
+            else:
+                _kwargs["size"] = size
+            _bins, _vals, _statuses = self.__iminuit.mnprofile(parameter_name, **_kwargs)
+            # TODO: check statuses (?)
+            self.minimize()  # return to minimum
+        except BaseException:
+            # do not leave the fit at an excursion point if the request is rejected or the scan fails
+            self._load_state()
+            raise
         self._load_state()  # report the same values and uncertainties as before the excursion
         return np.array([_bins, _vals]), _arrow_specs
 
